@@ -204,6 +204,26 @@ Proof.
   intros H. injection H as <-. cbn. repeat split.
 Qed.
 
+(* Parse never keeps a truncated certificate table: what it holds has exactly the
+   size the directory entry gives (a table that cannot be read in full is an error) *)
+Theorem parse_table_complete ok img st : pe_parse ok img = Ret st -> blen (pe_table st) = pe_ddsize st.
+Proof.
+  unfold pe_parse. destruct (negb ok); [discriminate|].
+  destruct (read_layout img) as [L|] eqn:HL; [|discriminate].
+  destruct (read_layout_basic _ _ HL) as (Hsz & _).
+  destruct (l_soo L =? 0); [discriminate|].
+  destruct (l_soh L <? l_dd4 L + 8); [discriminate|].
+  destruct (existsb _ _); [discriminate|].
+  destruct (l_size L <? l_sum L); [discriminate|].
+  destruct (l_size L - l_sum L <? l_certsize L); [discriminate|].
+  destruct (N.eqb_spec (l_certsize L) 0) as [Hz|Hnz]; cbn [negb andb].
+  - intros H. injection H as <-. cbn [pe_table pe_ddsize]. rewrite Hz.
+    unfold sub. destruct (blen img <=? l_va L); [reflexivity|].
+    rewrite N.min_0_l. cbn [N.to_nat firstn]. reflexivity.
+  - destruct (N.ltb_spec (l_size L) (l_va L + l_certsize L)) as [|Hfit]; [discriminate|].
+    intros H. injection H as <-. cbn [pe_table pe_ddsize]. apply sub_length. lia.
+Qed.
+
 (* the zero padding between the image proper and the table *)
 Lemma out_padding st q :
   let L := pe_L st in
